@@ -2,13 +2,13 @@
 # Re-verify every seeded change against the current /repo: apply, run the property's quick check, expect exit 1, revert.
 cd "$(dirname "$0")/.."
 for d in /verif/seeded/C*; do
-  P=$(basename $d)
+  N=$(basename $d); P=$(echo $N | cut -c1-3)
   # revert.diff (optional): undoes a later "fix:" commit without which the seeded change is no longer reachable
-  if [ -f $d/revert.diff ]; then git -C /repo apply $d/revert.diff || { echo "$P: revert.diff does not apply"; git -C /repo checkout -- .; continue; }; fi
-  if ! git -C /repo apply --check $d/patch.diff 2>/dev/null; then echo "$P: patch no longer applies to /repo HEAD"; git -C /repo checkout -- .; continue; fi
+  if [ -f $d/revert.diff ]; then git -C /repo apply $d/revert.diff || { echo "$N: revert.diff does not apply"; git -C /repo checkout -- .; continue; }; fi
+  if ! git -C /repo apply --check $d/patch.diff 2>/dev/null; then echo "$N: patch no longer applies to /repo HEAD"; git -C /repo checkout -- .; continue; fi
   git -C /repo apply $d/patch.diff
-  timeout 3000 ./check $P --tier quick > /tmp/seedv_$P.log 2>&1; rc=$?
+  timeout 3000 ./check $P --tier quick > /tmp/seedv_$N.log 2>&1; rc=$?
   git -C /repo checkout -- .
-  echo "$P rc=$rc $(grep -c '^VIOLATION' /tmp/seedv_$P.log) violations: $(grep '^  key' /tmp/seedv_$P.log | head -2 | cut -c1-90 | tr '\n' ';')"
+  echo "$N rc=$rc $(grep -c '^VIOLATION' /tmp/seedv_$N.log) violations: $(grep '^  key' /tmp/seedv_$N.log | head -2 | cut -c1-90 | tr '\n' ';')"
 done
 git -C /repo status --short | head -3
